@@ -690,6 +690,7 @@ def model_part(ctx: vlib.Ctx):
     r = ctx.rng
     want = ctx.budget(150, 1000)
     a_cases, b_cases, c_cases, a_descr, b_descr, c_descr = [], [], [], [], [], []
+    c_src = []
     patterns = set()
     tries = 0
     while len(a_cases) < want and tries < want * 4:
@@ -768,6 +769,7 @@ def model_part(ctx: vlib.Ctx):
                 if usafe and not collide:
                     c_cases.append(f"({env_t}, {ty_t}, {vt}, {dt}, {M.cbool(real_valid)})")
                     c_descr.append(G.ty_src(root, tbl, [])[:120] + " | " + G.val_src(vs)[:120])
+                    c_src.append({"source": src, "value": G.val_src(vs), "document": doc})
                 combo = r.choice(COMBOS)
                 s = real[combo]
                 try:
@@ -824,6 +826,11 @@ def model_part(ctx: vlib.Ctx):
             ctx.not_shown("correspondence " + name, log)
         else:
             ctx.correspondence(name, len(cases), len(bad), str([descr[i] for i in bad[:6]]))
+            if bad and fname == "c06_c":
+                import os
+                os.makedirs(vlib.REPLAYS, exist_ok=True)
+                with open(os.path.join(vlib.REPLAYS, f"C06-{ctx.seed}-enc_ok-mismatch.json"), "w") as fh:
+                    json.dump([c_src[i] for i in bad[:5]], fh, indent=1, default=str)
             if bad:
                 ctx.not_shown("correspondence " + name, f"{len(bad)} of {len(cases)} cases differ, e.g. {[descr[i] for i in bad[:4]]}; first case term: {cases[bad[0]][:1800]}")
         ctx.count(n=len(cases))
